@@ -106,6 +106,34 @@ Proof.
   cbn [a_default] in F1. destruct da; [discriminate|]. cbn [map]. rewrite (IH F2). reflexivity.
 Qed.
 
+(* the type a Typename denotes when it is written as a type without qualifiers *)
+Definition basic_of (ns : list string) (nm : nm) : bool :=
+  nilb ns && match nm with NStr n => mems n basics1 | _ => false end.
+Fixpoint ty_of_tn (t : typename) : ty :=
+  match t with
+  | Typename ns nm insts =>
+    match insts with
+    | [] => TPlain t false PNone (basic_of ns nm)
+    | _ => TTempl ns nm (map ty_of_tn insts) false PNone
+    end
+  end.
+Fixpoint tn_depth (t : typename) : nat :=
+  match t with Typename _ _ insts => S (fold_right (fun x acc => Nat.max (tn_depth x) acc) 0 insts) end.
+Lemma tn_depth_ge : forall (l : list typename) x, In x l -> tn_depth x <= fold_right (fun y acc => Nat.max (tn_depth y) acc) 0 l.
+Proof. induction l as [|y r IH]; intros x H; [destruct H|]. cbn [fold_right]. destruct H as [E|H]; [subst; lia | specialize (IH x H); lia]. Qed.
+Lemma ty_of_tn_typename : forall k t, tn_depth t < k -> ty_typename (ty_of_tn t) = t.
+Proof.
+  induction k as [|k IH]; intros t Hd; [lia|]. destruct t as [ns nm insts]. cbn [ty_of_tn]. destruct insts as [|i insts]; [reflexivity|].
+  cbn [ty_typename]. f_equal. rewrite map_map. cbn [tn_depth] in Hd.
+  assert (Hs : forall x, In x (i :: insts) -> ty_typename (ty_of_tn x) = x).
+  { intros x Hx. apply IH. pose proof (tn_depth_ge (i :: insts) x Hx). lia. }
+  clear - Hs. induction (i :: insts) as [|x r IHr]; [reflexivity|]. cbn [map]. rewrite (Hs x (or_introl eq_refl)). f_equal.
+  apply IHr. intros y Hy. apply Hs. right. exact Hy.
+Qed.
+Definition templ_topb (t : ty) : bool := match t with TTempl _ _ _ false PNone => true | _ => false end.
+Lemma templ_topb_ok : forall t, templ_topb t = true -> templ_top t.
+Proof. intros [tn c k b|ns nm ps c k] H; cbn in *; [discriminate|]. destruct c; [discriminate|]. destruct k; try discriminate. exact I. Qed.
+
 (* declaration trees of the fragment: functions, and namespaces of such *)
 Fixpoint item_of_decl (d : decl) : option item :=
   match d with
@@ -122,6 +150,7 @@ Fixpoint item_of_decl (d : decl) : option item :=
   | DFwd {| fw_virtual := v; fw_tn := Typename [] (NStr n) []; fw_parent := None |} => Some (IFwd v n)
   | DInclude h => Some (IInc h)
   | DEnum {| e_name := n; e_items := l |} => Some (IEnum n l)
+  | DTypedef tn n => Some (ITypedef (ty_of_tn tn) n)
   | _ => match fn_of_decl d with Some x => Some (IFn x) | None => None end
   end.
 Fixpoint items_of_decls (l : list decl) : option (list item) :=
@@ -147,6 +176,7 @@ Proof.
   destruct d as [c|f|tg nn|fw|inc|e|v|n ds];
     try (cbn [item_of_decl] in H; match type of H with match ?o with _ => _ end = _ => destruct o as [x|] eqn:E end;
          [inversion H; subst i; cbn [idecl]; apply decl_of_fn; exact E | discriminate]).
+  - cbn [item_of_decl] in H. inversion H; subst i. cbn [idecl]. rewrite (ty_of_tn_typename (S (tn_depth tg)) tg (Nat.lt_succ_diag_r _)). reflexivity.
   - destruct fw as [v [ns [n|o] insts] [pa|]]; cbn [item_of_decl fn_of_decl] in H; try discriminate;
       destruct ns; try discriminate; destruct insts; try discriminate. inversion H; subst i. reflexivity.
   - cbn [item_of_decl] in H. inversion H; subst i. reflexivity.
@@ -185,13 +215,14 @@ Fixpoint wf_itemb (i : item) : bool :=
   | IVar t n => wf_tyb t && Nat.ltb (depth t) depth_fuel && head_okb t && is_ident (chars_of n)
   | IFwd _ n => is_ident (chars_of n)
   | IInc h => path_okb_c (chars_of h)
+  | ITypedef t n => wf_tyb t && Nat.ltb (depth t) depth_fuel && templ_topb t && is_ident (chars_of n)
   | IEnum n l => is_ident (chars_of n) && negb (memc (chars_of n) [chars_of "class"; chars_of "struct"]) && negb (nilb l)
                  && forallb (fun y => is_ident (chars_of y)) l
   | INs n b => is_ident (chars_of n) && forallb wf_itemb b
   end.
 Lemma wf_itemb_ok : forall k i, idepth i < k -> wf_itemb i = true -> wf_item i.
 Proof.
-  induction k as [|k IH]; intros i Hd H; [lia|]. destruct i as [x|t n|vt n|hd|en el|n b]; cbn [wf_itemb wf_item] in *.
+  induction k as [|k IH]; intros i Hd H; [lia|]. destruct i as [x|t n|vt n|hd|en el|tt tnm|n b]; cbn [wf_itemb wf_item] in *.
   - apply wf_fnb_ok. exact H.
   - apply andb_true_iff in H. destruct H as [H H4]. apply andb_true_iff in H. destruct H as [H H3].
     apply andb_true_iff in H. destruct H as [H1 H2]. apply Nat.ltb_lt in H2.
@@ -203,6 +234,9 @@ Proof.
     unfold memc in H2. destruct (in_dec chars_dec (chars_of en) [chars_of "class"; chars_of "struct"]) as [i|ni]; [discriminate|].
     split; [intros E; apply ni; left; symmetry; exact E|]. split; [intros E; apply ni; right; left; symmetry; exact E|].
     split; [intros E; subst el; discriminate|]. apply Forall_forall. intros y Hy. rewrite forallb_forall in H4. apply H4. exact Hy.
+  - apply andb_true_iff in H. destruct H as [H H4]. apply andb_true_iff in H. destruct H as [H H3].
+    apply andb_true_iff in H. destruct H as [H1 H2]. apply Nat.ltb_lt in H2.
+    split; [apply (wf_tyb_ok _ _ H2 H1)|]. split; [exact H2|]. split; [apply templ_topb_ok; exact H3 | exact H4].
   - apply andb_true_iff in H. destruct H as [H1 H2]. split; [exact H1|]. cbn [idepth] in Hd.
     assert (Hb : forall j, In j b -> wf_item j).
     { intros j Hj. apply IH; [pose proof (idepth_ge b j Hj); lia | rewrite forallb_forall in H2; apply H2; exact Hj]. }
